@@ -17,9 +17,9 @@ RULE = ("histories over a pool of 2 parsers (thorough: 3) and the alphabet {cons
         "(thorough <= 5) is enumerated (slots first used in order; of the maximal-length ones without any parse one in ten is kept); "
         "the shorter ones are each made concrete once, the maximal-length ones fill a budget of 1500 (thorough 20000) draws from "
         "VERIF_SEED - in the quick tier each about three times, independently (settings from all 18 combinations; dataclasses "
-        "{my_x:int}, +name:str, +pair:Tuple[int,str], +model:subgroups(ma|mb) at dest a, {other_y:int}, +tag:str at dest b; valid argv "
+        "{my_x:int}, +name:str, +pair:Tuple[int,str], +model:subgroups(ma|mb) at dest a, {other_y:int}, +tag:str at dest b; 15% of the parsers use ConflictResolution.NONE and may then get {my_x:int} at dest b too, so that every set-up raises ConflictResolutionError; valid argv "
         "written in the parser's OWN spelling, optionally naming config files; invalid argv = unknown option, non-int, missing value, "
-        "bad choice, bad/short/repeated tuple, field of the other subgroup, stray word, missing or extension-less file, foreign "
+        "bad choice (the SET-UP fails), bad/short/repeated tuple, field of the other subgroup, stray word, missing or extension-less file, foreign "
         "spelling, --help/-h); plus the standing witnesses of the known defects, the Example of Properties/C08.v and 150 (thorough "
         "2000) random histories of length 5-10 (thorough 5-12). EACH HISTORY RUNS IN ITS OWN PROCESS; every parse is compared with "
         "the model AND with a fresh-process run of the same definition + argv (the property's own oracle). Non-trivial = a parse "
@@ -46,13 +46,15 @@ CLASSES = {
     "K4": [("my_x", "int", 1), ("model", "sub", {"alts": [("ma", "MA", "lr_a", 3), ("mb", "MB", "size_b", 5)], "default": "ma"})],
     "L1": [("other_y", "int", 2)],
     "L2": [("other_y", "int", 2), ("tag", "str", "t")],
+    "L3": [("my_x", "int", 5)],          # shares a field name with the K classes: only given to NONE-mode parsers
 }
 A_CLASSES, B_CLASSES = ["K1", "K2", "K3", "K4"], ["L1", "L2"]
 FILES = {"c1.json": {"a": {"my_x": 7}}, "c2.json": {"a": {"my_x": 8}}}
 DASH = ["AUTO", "DASH", "UNDERSCORE_AND_DASH"]
 GEN = ["FLAT", "NESTED", "BOTH"]
 NM = ["DEFAULT", "WITHOUT_ROOT"]
-DEFAULT_CFG = {"dash": "AUTO", "gen": "FLAT", "nm": "DEFAULT"}
+DEFAULT_CFG = {"dash": "AUTO", "gen": "FLAT", "nm": "DEFAULT"}            # "cr" (AUTO | NONE) is optional, AUTO when absent
+NONE_CFG = {"dash": "AUTO", "gen": "FLAT", "nm": "DEFAULT", "cr": "NONE"}
 
 
 def classes_src():
@@ -134,7 +136,7 @@ def spellings(cfg, path, name):
 def other_cfg(rng, cfg):
     while True:
         c = {"dash": rng.choice(DASH), "gen": rng.choice(GEN), "nm": rng.choice(NM)}
-        if c != cfg:
+        if any(c[k] != cfg[k] for k in c):
             return c
 
 
@@ -143,8 +145,9 @@ def groups_for(rng, cfg, adds, spell_cfg=None):
     sc = spell_cfg or cfg
     groups = {}
     for cname, dest in adds:
-        for name, kind, d in CLASSES[cname]:
-            o = rng.choice(spellings(sc, [dest], name))
+        for fname_, kind, d in CLASSES[cname]:
+            o = rng.choice(spellings(sc, [dest], fname_))
+            name = fname_ if fname_ not in groups else f"{fname_}@{dest}"
             if kind == "int":
                 groups[name] = [o, rng.choice(VALUES_INT)]
             elif kind == "str":
@@ -154,7 +157,7 @@ def groups_for(rng, cfg, adds, spell_cfg=None):
             else:
                 key, _, fname, _ = rng.choice(d["alts"])
                 groups[name] = [o, key]
-                groups[name + ":alt"] = [rng.choice(spellings(sc, [dest, name], fname)), rng.choice(VALUES_INT)]
+                groups[name + ":alt"] = [rng.choice(spellings(sc, [dest, fname_], fname)), rng.choice(VALUES_INT)]
     return groups
 
 
@@ -187,7 +190,7 @@ def invalid_argv(rng, pdef):
     if "pair" in groups:
         kinds += ["bad-tuple", "short-tuple", "two-tuples"]
     if "model" in groups:
-        kinds += ["bad-choice", "wrong-alt"]
+        kinds += ["bad-choice", "bad-choice", "bad-choice", "wrong-alt"]      # an invalid key makes the SET-UP fail
     if cfgarg and any(d == "a" for _, d in adds):
         kinds += ["missing-file", "missing-file"]
     kind = rng.choice(kinds)
@@ -248,6 +251,8 @@ def concretise(rng, abstract):
             cfgarg = rng.random() < 0.25
             if cfgarg:
                 cfg["nm"] = "DEFAULT"
+            if rng.random() < 0.15:               # no conflict resolution: a shared field name makes every set-up raise
+                cfg["cr"] = "NONE"
             if defs and rng.random() < 0.25:      # the same settings as an existing parser
                 cfg = dict(rng.choice(list(defs.values()))[0])
                 if cfgarg:
@@ -265,6 +270,8 @@ def concretise(rng, abstract):
                 continue
             dest = "a" if ("a" in free and (len(free) == 1 or rng.random() < 0.8)) else free[-1]
             cname = rng.choice(A_CLASSES if dest == "a" else B_CLASSES)
+            if dest == "b" and cfg.get("cr") == "NONE" and rng.random() < 0.6:
+                cname = "L3"
             adds.append((cname, dest))
             ops.append(["add", slot, cname, dest])
         elif sym == "PV":
@@ -320,6 +327,18 @@ WITNESSES = [
     # set-up frozen by print_help before the config file is read
     [["construct", 0, dict(DEFAULT_CFG), True], ["add", 0, "K2", "a"], ["print_help", 0],
      ["parse", 0, ["--config_path", "c1.json"]]],
+    # a set-up that fails (invalid subgroup key / NONE-mode clash) must be redone by the next call (seeded change C08-03)
+    [["construct", 0, dict(DEFAULT_CFG), False], ["add", 0, "K4", "a"], ["parse", 0, ["--model", "zz"]], ["parse", 0, []]],
+    [["construct", 0, dict(DEFAULT_CFG), False], ["add", 0, "K4", "a"], ["parse", 0, ["--model", "zz"]],
+     ["parse", 0, ["--model", "mb", "--size_b", "9", "--my_x", "4"]]],
+    [["construct", 0, dict(DEFAULT_CFG), False], ["add", 0, "K4", "a"], ["parse", 0, ["--my_x", "3", "--model"]],
+     ["print_help", 0], ["parse", 0, ["--model", "mb"]]],
+    [["construct", 0, dict(NONE_CFG), False], ["add", 0, "K1", "a"], ["add", 0, "L3", "b"], ["parse", 0, []], ["parse", 0, []]],
+    [["construct", 0, dict(NONE_CFG), False], ["add", 0, "K2", "a"], ["add", 0, "L3", "b"], ["print_help", 0],
+     ["parse", 0, ["--name", "w"]], ["format_help", 0], ["parse", 0, []]],
+    # NONE mode without a clash (nested spelling) works like any other parser
+    [["construct", 0, {"dash": "AUTO", "gen": "NESTED", "nm": "DEFAULT", "cr": "NONE"}, False], ["add", 0, "K1", "a"],
+     ["add", 0, "L3", "b"], ["parse", 0, ["--a.my_x", "4"]], ["parse", 0, ["--b.my_x", "3"]]],
     # benign: three parsers interleaved (the Example of Properties/C08.v)
     [["construct", 0, {"dash": "DASH", "gen": "FLAT", "nm": "DEFAULT"}, False], ["add", 0, "K2", "a"], ["parse", 0, ["--my-x", "4"]],
      ["construct", 1, dict(DEFAULT_CFG), True], ["add", 1, "K4", "a"], ["add", 1, "L1", "b"],
@@ -474,15 +493,18 @@ def classify(case, obs, k):
     has_sub = any(p[0] == "add" and any(kd == "sub" for _, kd, _ in CLASSES[p[2]]) for p, _ in since)
     names_file = lambda argv: any(t.endswith(".json") for t in argv)  # noqa: E731
     file_before = any(p[0] == "parse" and names_file(p[2]) for p, _ in since)
+    if any(q.get("in_setup") and q.get("done_after") for _, q in since):
+        # an earlier call's set-up raised, yet the parser is marked as set up: it stays half-built
+        return "failed-setup-not-redone"
     if r == ["raise", "ArgumentError"] and f != r and cfgarg and any(p[0] == "parse" for p, _ in since):
         return "config-path-readded:ArgumentError"
     if r == ["raise", "IndexError"] and f != r and any(p[0] == "parse" for p, _ in since):
         return "tuple-counter:IndexError"
     h_opts, f_opts = o.get("opts", []), fr.get("opts", [])
-    if _spelling_differs(h_opts, f_opts):
-        return "spelling-overwritten"
     if late:
         return "setup-frozen:late-add"
+    if _spelling_differs(h_opts, f_opts):
+        return "spelling-overwritten"
     if has_sub and o.get("done_before") and _field_ids(h_opts) != _field_ids(f_opts):
         return "setup-frozen:subgroup"
     if cfgarg and o.get("done_before") and (names_file(op[2]) or file_before) and h_opts == f_opts:
@@ -547,6 +569,8 @@ def coq_vals(r):
         return "(Ok " + clist([cpair(cstr(k), cstr(v)) for k, v in r[1]]) + ")"
     if r[0] == "exit":
         return f"(Err (Exit {cnat(int(r[1]))}))"
+    if r[1] == "ConflictResolutionError":
+        return "(Err CRE)"
     return f"(Err (Raise {cstr(r[1])}))"
 
 
@@ -555,17 +579,20 @@ def coq_obs(op, o):
     if r == ["noparser"]:
         return "ONoParser"
     if op[0] == "construct":
-        return "ONone" if r == ["none"] else f"(OParse {coq_vals(r)})"       # a failing constructor is never the model's answer
+        return "ONone" if r == ["none"] else "(OFail " + coq_vals(r)[len("(Err "):-1] + ")"   # never the model's answer
     if op[0] == "parse":
         return f"(OParse {coq_vals(r)})"
-    return "ODone" if r == ["done"] else f"(OParse {coq_vals(r)})"
+    if r == ["done"]:
+        return "ODone"
+    return "(OFail " + coq_vals(r)[len("(Err "):-1] + ")"        # add_arguments / print_help / format_help raised
 
 
 def to_coq(case, obs):
     ops = []
     for op in case["ops"]:
         if op[0] == "construct":
-            ops.append(f"Construct {cnat(op[1])} {coq_cfg(op[2])} {cbool(op[3])}")
+            cr = {"AUTO": "CRAuto", "NONE": "CRNone"}[op[2].get("cr", "AUTO")]
+            ops.append(f"Construct {cnat(op[1])} {coq_cfg(op[2])} {cr} {cbool(op[3])}")
         elif op[0] == "add":
             ops.append(f"AddArgs {cnat(op[1])} cls_{op[2]} {cstr(op[3])}")
         elif op[0] == "parse":
